@@ -21,11 +21,13 @@ CHECKS = {
     "C19": ("matrix creation-N x reopen-N x stored version x pre-creation on populated stores; TLC decides admitted/rejected and requires an unchanged directory", "5.C19"),
     "C20": ("independent decoder (alpha) of the directory at every boundary; TLC evaluates well-formedness, version rules, acked-present and decode = history", "5.C20"),
 }
+CHECKS.update({
+    "C04": ("TLC exhaustive interleavings of CasConc (Inv_C04, Inv_C07) + real threads serialised at yield points: DFS (<=2 pre-emptions), random and TLC-generated schedules; index vs hashed cas/ listing after every scheduling step judged by TLC (TraceConc)", "5.C04"),
+    "C05": ("TLC exhaustive interleavings (Inv_C05 read monitor) + reader/writer programs on the real code under the schedule controller; TLC checks every returned value against the values observed during the call", "5.C05"),
+    "C15": ("TLC deadlock check + liveness (WF) + lock-order invariant on CasConc; controller detects blocked workers in explored schedules of the real code", "5.C15"),
+})
 PENDING = {
-    "C04": "concurrency engine (CasConc + schedule controller) not built yet in this revision",
-    "C05": "concurrency engine (CasConc + schedule controller) not built yet in this revision",
     "C11": "CasLock specification and multi-process harness not built yet in this revision",
-    "C15": "concurrency engine (CasConc + schedule controller) not built yet in this revision",
     "C16": "Codec/WalFrame specification and vector harness not built yet in this revision",
     "C17": "RangeRead specification and vector harness not built yet in this revision",
     "C18": "BlobId specification and vector harness not built yet in this revision",
@@ -54,7 +56,7 @@ def main():
             "guard": "cargo feature `verif` of cassadilia",
             "enable": "harness/Cargo.toml: cassadilia = { path = \"/repo\", features = [\"verif\"] }",
             "baseline_off_cmd": "cd /repo && cargo test --workspace --no-fail-fast --offline",
-            "source_commits": ["4c760dc"],
+            "source_commits": ["4c760dc", "7bc0271"],
             "add_only": True,
         },
         "engines": [
@@ -70,10 +72,13 @@ def main():
         f.write("\n")
 
 
-ENGINE = {}
-NOTE = {}
-TECH = {}
-EXTRA_ENGINES = []
+ENGINE = {"C04": "conc", "C05": "conc", "C15": "conc"}
+CONC_NOTE = "threads are serialised at the yield points of the verif feature (every lock acquisition and every shared filesystem call), so races inside one step and memory-model effects are not explored; TLC exhaustive only up to the thread/operation counts in the evidence; parking_lot and kernel rename/unlink trusted"
+NOTE = {"C04": CONC_NOTE, "C05": CONC_NOTE, "C15": CONC_NOTE}
+CONC_TECH = "TLA+ spec (CasConc) model-checked by TLC over all interleavings + schedule-controlled real threads validated against the spec by TLC (TraceConc)"
+TECH = {"C04": CONC_TECH, "C05": CONC_TECH, "C15": CONC_TECH}
+EXTRA_ENGINES = [{"name": "conc", "path": "/verif/lib/conccheck.py", "serves_properties": ["C04", "C05", "C15"],
+                  "kind_free_text": "TLC model check of spec/MCConc + harness/src/conc.rs schedule controller over cassadilia::verif yield points + TLC trace validation spec/TraceConc"}]
 
 if __name__ == "__main__":
     main()
